@@ -25,6 +25,17 @@ def main(tier):
         all_edges.append((len(edges), sum(1 for e in edges if not e["fx"])))
         del edges, runs
 
+    # histories of SOURCES: one that fails after part of the announced bytes, then one that ends early, on the same writer
+    import json as _j
+    import os as _os
+    so = _os.path.join(workdir("c09-sources"), "sources.json")
+    mbt("prod", "many", "sources", so, "1", timeout=600)
+    sres = _j.load(open(so))
+    for viol in sres["violations"]:
+        v.violation(dict(check="source-history", kind=viol["kind"], stack=viol["stack"], op="append", name=None, src="failing-then-short"),
+                    dict(engine="many", mode="sources", detail=viol["detail"]))
+    ev["source_histories"] = dict(stacks_ok=sres["stacks_ok"])
+
     class _R:
         distinct, generated = tot_states, tot_trans
     res = _R
@@ -33,7 +44,7 @@ def main(tier):
     nrefused = sum(b for _, b in all_edges)
     cov = dict(states=res.distinct, transitions=res.generated,
                traces_validated_against_impl=ev.get("runs", 0), samples=ev.get("samples", [])[:3] or ["none"],
-               edges_exported=nedges, refused_edges_in_model=nrefused,
+               edges_exported=nedges, source_histories=ev.get("source_histories"), refused_edges_in_model=nrefused,
                refused_calls_checked_on_code=ev.get("refused_calls", 0), steps_replayed=ev.get("steps", 0),
                hidden_state_steps_compared=ev.get("hidden_compared", 0), archives_read_back=ev.get("readbacks", 0),
                drift=ev.get("drifts", 0), drift_samples=ev.get("drift_samples", [])[:3], tlc_runs=ev["tlc"],
